@@ -320,6 +320,10 @@ func histGen(prop string, stores []string) func(t *rapid.T) histCase {
 					op.Src = dm.Subsample(t, root, dm.GenTree(t, root, to), 60, 0, to)
 				} else {
 					op.Src = dm.Subsample(t, root, u, 50, 50, to)
+					if rapid.IntRange(0, 3).Draw(t, "repeat-key") == 0 {
+						// the same key twice in one payload: the second occurrence merges into the first
+						repeatAnEntry(t, root, op.Src)
+					}
 				}
 			case "delete":
 				op.Path = paths[rapid.IntRange(0, len(paths)-1).Draw(t, "path")]
@@ -346,9 +350,51 @@ func histGen(prop string, stores []string) func(t *rapid.T) histCase {
 	}
 }
 
+// repeatAnEntry appends, to some list of the fragment, a second entry with the key of one it already holds and
+// different content.
+func repeatAnEntry(t *rapid.T, n *dm.Node, tr dm.Tree) bool {
+	for _, d := range n.DataChildren() {
+		v, ok := tr[d.Name]
+		if !ok {
+			continue
+		}
+		switch d.Kind {
+		case "container":
+			if c, isT := v.(dm.Tree); isT && repeatAnEntry(t, d, c) {
+				return true
+			}
+		case "list":
+			l, _ := v.([]interface{})
+			if len(l) == 0 || len(d.Keys) == 0 {
+				continue
+			}
+			if rapid.Bool().Draw(t, "here") {
+				src := l[rapid.IntRange(0, len(l)-1).Draw(t, "which")].(dm.Tree)
+				dup := dm.Tree{}
+				for _, k := range d.Keys {
+					dup[k] = src[k]
+				}
+				for _, ch := range d.Children { // direct children only: leaves inside a choice exclude each other
+					if ch.Kind == "leaf" && ch.Type.Eff().Base == "string" && dup[ch.Name] == nil {
+						dup[ch.Name] = "again"
+					}
+				}
+				tr[d.Name] = append(l, dup)
+				return true
+			}
+			for _, e := range l {
+				if repeatAnEntry(t, d, e.(dm.Tree)) {
+					return true
+				}
+			}
+		}
+	}
+	return false
+}
+
 var c18Hist = hx.Register(&hx.Check[histCase]{
 	Name: "c18-delete-replace-history",
-	Rule: "histories of 1-8 operations {upsert fragment, delete container / whole list / list entry (first, middle, last, only), replace container / entry} on reference, map-backed Reflect and Node (map and slice lists) and struct-backed Reflect and Node stores; after every step the store's backing data must equal the model, a deleted entry must not be found, and at the end every entry is found under its key; non-trivial = a delete followed by a further edit, or a delete below the top level",
+	Rule: "histories of 1-8 operations {upsert fragment (one in four names some list key twice), delete container / whole list / list entry (first, middle, last, only), replace container / entry} on reference, map-backed Reflect and Node (map and slice lists) and struct-backed Reflect and Node stores; after every step the store's backing data must equal the model, a deleted entry must not be found, and at the end every entry is found under its key; non-trivial = a delete followed by a further edit, or a delete below the top level",
 	Gen:  histGen("C18", []string{"rs", "reflect-map", "reflect-slice", "node-map", "node-slice", "reflect-struct", "node-struct"}),
 	Run:  histRun("C18"),
 })
